@@ -305,6 +305,25 @@ def pick_timeframe(rng, base_s, lo=1.0, hi=20.0, allow_finer=True):
     return rng.choice(cands)
 
 
+def equiv_spelling(tf):
+    """Another legal spelling of the same span in a different unit (H1 -> T60, T1 -> S60, D1 -> H24)."""
+    unit, n = tf[0].upper(), int(tf[1:])
+    if unit == "S":
+        return f"T{n // 60}" if n % 60 == 0 else tf
+    if unit == "T":
+        return f"H{n // 60}" if n % 60 == 0 else f"S{n * 60}"
+    if unit == "H":
+        return f"D{n // 24}" if n % 24 == 0 else f"T{n * 60}"
+    return f"H{n * 24}"
+
+
+def day_shifted(tf, days=1):
+    """A different timeframe whose span differs from tf's by a whole number of days (H1 -> H25)."""
+    unit, n = tf[0].upper(), int(tf[1:])
+    per_day = {"S": 86400, "T": 1440, "H": 24, "D": 1}[unit]
+    return f"{unit}{n + days * per_day}"
+
+
 def pick_start(rng, base_s, tf_s=None, mode=None):
     """Start time: a random moment in 2023 aligned to the base grid; `mode` places the first candle
     exactly on / just after / just before a bucket edge of tf."""
